@@ -35,9 +35,30 @@ type UnitResult struct {
 }
 
 func (w *World) shapes() *Shapes {
-	sh := &Shapes{Ghost: map[string][]GhostField{}}
+	sh := &Shapes{Ghost: map[string][]GhostField{}, Open: map[string]map[string]bool{}}
 	if w.Specs == nil {
 		return sh
+	}
+	for _, g := range w.Specs.Opens {
+		env := &SpecEnv{X: &Exec{W: w, C: NewCtx(), Sh: sh}}
+		var T types.Type
+		func() {
+			defer func() {
+				if r := recover(); r != nil {
+					T = nil
+				}
+			}()
+			T = env.resolveType(g.Type)
+		}()
+		if T == nil {
+			continue
+		}
+		if n, ok := types.Unalias(T).(*types.Named); ok {
+			if sh.Open[qualName(n)] == nil {
+				sh.Open[qualName(n)] = map[string]bool{}
+			}
+			sh.Open[qualName(n)][g.Name] = true
+		}
 	}
 	// ghost fields
 	for _, g := range w.Specs.Ghosts {
@@ -504,6 +525,37 @@ func SolveUnits(units []*UnitResult, opts SolveOpts) {
 	}
 	close(ch)
 	wg.Wait()
+	// third attempt, machine quiet: the few jobs that are still undecided (timeout/unknown, never a sat answer)
+	// are retried one at a time with four times the time limit. A loaded machine must not turn a slow proof
+	// into an alarm; a genuine failure stays a failure.
+	var retry []job
+	for _, j := range jobs {
+		r := results[j.o][j.part]
+		if r.Status != "unsat" && r.Status != "sat" && j.o.Kind != "vacuity" {
+			retry = append(retry, j)
+		}
+	}
+	if len(retry) > 0 && len(retry) <= 12 {
+		for _, j := range retry {
+			o := j.o
+			tag := nameSan.ReplaceAllString(o.Name, "_")
+			if len(tag) > 150 {
+				tag = tag[:150]
+			}
+			if len(o.Parts) > 0 {
+				tag += fmt.Sprintf(".p%d", j.part)
+			}
+			mk := func(cvc5 bool) string {
+				return j.u.Exec.scriptFor(o, j.part, cvc5, len(j.u.Exec.replayTerms) > 0)
+			}
+			r3 := Solve(mk, opts.TimeoutS*4, opts.Scratch, tag+".slow", "")
+			if r3.Status == "unsat" || r3.Status == "sat" {
+				r3.Solver += " (retried alone, 4x time limit)"
+				r3.Seconds += results[o][j.part].Seconds
+				results[o][j.part] = r3
+			}
+		}
+	}
 	for _, u := range units {
 		for _, o := range u.Obligs {
 			if o.Trivial {
